@@ -112,6 +112,63 @@ func analyseNondet(w *world) []ndSite {
 	return sites
 }
 
+// longLived: a struct that outlives one call: keepers, message/query servers, app modules, hooks, or anything holding a
+// store key (scratch structs built per call, like the fulfilment info of a wager, are not)
+func longLived(info *types.Info, name string, st *ast.StructType) bool {
+	switch name {
+	case "Keeper", "msgServer", "queryServer", "AppModule", "AppModuleBasic", "Hooks", "MultiHooks":
+		return true
+	}
+	for _, fld := range st.Fields.List {
+		if t := info.TypeOf(fld.Type); t != nil && strings.Contains(t.String(), "StoreKey") {
+			return true
+		}
+	}
+	return false
+}
+
+// processLocal: a field type that carries mutable process-local state (map, channel, sync / sync/atomic object), looking
+// through pointers
+func processLocal(t types.Type) bool {
+	for {
+		if p, ok := t.Underlying().(*types.Pointer); ok {
+			t = p.Elem()
+			continue
+		}
+		break
+	}
+	if n, ok := t.(*types.Named); ok && n.Obj() != nil && n.Obj().Pkg() != nil {
+		if pp := n.Obj().Pkg().Path(); pp == "sync" || pp == "sync/atomic" {
+			return true
+		}
+	}
+	switch t.Underlying().(type) {
+	case *types.Map, *types.Chan:
+		return true
+	}
+	return false
+}
+
+// processLocalVar: package-level variables of channel or sync type (lookup tables of map type are common and are only
+// reported when some function assigns into them, which the map-index scan does not cover: channels and sync objects
+// have no use other than carrying state between calls)
+func processLocalVar(t types.Type) bool {
+	for {
+		if p, ok := t.Underlying().(*types.Pointer); ok {
+			t = p.Elem()
+			continue
+		}
+		break
+	}
+	if n, ok := t.(*types.Named); ok && n.Obj() != nil && n.Obj().Pkg() != nil {
+		if pp := n.Obj().Pkg().Path(); pp == "sync" || pp == "sync/atomic" {
+			return true
+		}
+	}
+	_, isChan := t.Underlying().(*types.Chan)
+	return isChan
+}
+
 func isRandPkg(p string) bool {
 	return p == "math/rand" || p == "math/rand/v2" || p == "crypto/rand"
 }
@@ -183,6 +240,28 @@ func scanFile(w *world, pa *purity, p *packages.Package, f *ast.File, add func(t
 							}
 						}
 						add(n.Pos(), fname, kind)
+					}
+				}
+			}
+		case *ast.TypeSpec:
+			// state that lives in the process and not in the store: a keeper/server struct holding a map, a channel or a
+			// sync/atomic object survives discarded store branches (failed or simulated transactions) and restarts
+			if st, ok := n.Type.(*ast.StructType); ok && longLived(info, n.Name.Name, st) {
+				for _, fld := range st.Fields.List {
+					if t := info.TypeOf(fld.Type); t != nil && processLocal(t) {
+						add(fld.Pos(), n.Name.Name, "ProcessLocalState")
+					}
+				}
+			}
+		case *ast.GenDecl:
+			if n.Tok == token.VAR && curFn == nil {
+				for _, sp := range n.Specs {
+					if vs, ok := sp.(*ast.ValueSpec); ok {
+						for _, nm := range vs.Names {
+							if obj := info.Defs[nm]; obj != nil && processLocalVar(obj.Type()) {
+								add(nm.Pos(), "<package-level>", "ProcessLocalState")
+							}
+						}
 					}
 				}
 			}
